@@ -323,6 +323,13 @@ def _all_inits(g):
                 yield from _all_inits(a.g)
 
 
+def _dup_init_names(case):
+    from collections import Counter
+
+    n = Counter(i.name for i in _all_inits(_m(case).graph))
+    return any(v > 1 for v in n.values())
+
+
 def _opset(case):
     return next((o.version for o in _m(case).opset_import if o.domain in ("", "ai.onnx")), 99)
 
@@ -349,12 +356,12 @@ REGIONS = {
     # Python constants (inlined Constant nodes / initializers passed as numpy parameters) are typed by the converter with CastLike,
     # which does not exist before opset 15: the generated script denotes a model that no runtime accepts
     "python_constants_need_castlike_before_opset15": lambda c: (bool(c["opts"].get("inline_const")) or bool(c["opts"].get("skip_initializers"))) and _opset(c) < 15,
-    # use_operators=True renders Add/Sub/... as Python operators; a function (or main graph) made only of such nodes has no opset call
-    # left and @script() / @script(this1) carries no default_opset: the decorator raises
-    "use_operators_body_without_opset_call": lambda c: bool(c["opts"].get("use_operators")) and _operator_only_body(c),
     "inline_const_drops_still_referenced_definition": lambda c: bool(c["opts"].get("inline_const")),
     "inline_const_empty_list": lambda c: bool(c["opts"].get("inline_const")) and _empty_1d_const(c),
     "if_with_unused_outputs": _dead_if,
+    # skip_initializers=True turns every large initializer of every (sub)graph into one parameter of make_model, keyed by name: the same
+    # name in two disjoint scopes (legal ONNX) makes the exporter give up with RuntimeError('... already present in skipped_initializers')
+    "skip_initializers_same_name_in_two_scopes": lambda c: bool(c["opts"].get("skip_initializers")) and _dup_init_names(c),
     "function_attribute_default_not_exported": lambda c: any(len(f.attribute_proto) for f in _m(c).functions),
     "loop_nested_in_if_branch": lambda c: any(n.op_type == "If" and any(x.op_type == "Loop" for a in n.attribute if a.type == onnx.AttributeProto.GRAPH for x in _nodes(a.g))
                                               for n in _nodes(_m(c).graph)),
